@@ -344,6 +344,108 @@ type (
 	CondAliasLateZ  stackage.Condition // first seen as a zero value
 )
 
+// envPrelude runs at the start of every check, before anything else touches the library: the package gets
+// to see hollow values (zero values, nil pointers, pointers to zero values) of every handle type the
+// checks use - the native ones, the harness's alias types and pointers to them - through every entry
+// point that inspects an element. Whatever the package concludes from them must be a conclusion about
+// those VALUES: every check then works with live values of the same types. Nothing is asserted here.
+func envPrelude() {
+	noPanic(func() {
+		var zs stackage.Stack
+		var zc stackage.Condition
+		var za StackAlias
+		var zas StackAliasS
+		var zca CondAlias
+		var zcas CondAliasS
+		pzs, pza := &zs, &za
+		hollow := []any{zs, zc, za, zas, zca, zcas, &zs, &zc, &za, &zas, &zca, &zcas, &pzs, &pza,
+			(*stackage.Stack)(nil), (*stackage.Condition)(nil), (*StackAlias)(nil), (*StackAliasS)(nil), (*CondAlias)(nil), (*CondAliasS)(nil),
+			(**stackage.Stack)(nil), (**StackAlias)(nil), (*int)(nil), (*string)(nil)}
+		for _, h := range hollow {
+			h := h
+			noPanic(func() {
+				stackage.ConvertStack(h)
+				stackage.ConvertCondition(h)
+				p := stackage.And().Push("a", h, "b")
+				n := stackage.Or().SetNoNesting(true).Push(h)
+				_ = p.String()
+				p.IsNesting()
+				n.IsNesting()
+				p.Unmarshal()
+				p.IsEqual(stackage.And().Push("a", h, "b"))
+				p.Traverse(1, 0)
+				p.Less(1, 0)
+				p.Valid()
+				p.Defrag()
+				p.Reveal()
+				stackage.List().Push("x").Transfer(h)
+				cd := stackage.Cond("k", stackage.Eq, h)
+				_ = cd.String()
+				cd.IsNesting()
+				cd.Len()
+				cd.Unmarshal()
+				cd.IsEqual(stackage.Cond("k", stackage.Eq, h))
+				var m stackage.Stack
+				m.Marshal("AND", h)
+			})
+		}
+	})
+}
+
+// Same-named types: Go lets two functions declare local types with one name; both print as
+// "main.item" / "main.clause", and nothing but their name is the same.
+func sameNamePlainItem(v string) any { type item string; return item(v) }
+func sameNameAliasItem(s stackage.Stack) any { type item stackage.Stack; return item(s) }
+func sameNameAliasClause(s stackage.Stack) any { type clause stackage.Stack; return clause(s) }
+func sameNamePlainClause(v string) any { type clause string; return clause(v) }
+
+// sameNamedTypes: a plain type seen first and an alias type of the same name afterwards, and the other
+// way round with another name. It returns what went wrong ("" if nothing did).
+func sameNamedTypes() string {
+	var bad []string
+	p := noPanic(func() {
+		// "item": the plain one first, offered to a no-nesting stack
+		a := stackage.And().SetNoNesting(true).Push(sameNamePlainItem("just text"))
+		_ = a.String()
+		alias := sameNameAliasItem(stackage.And().Push("x"))
+		b := stackage.And().SetNoNesting(true).Push("text", alias, 42)
+		if b.Len() != 2 || b.IsNesting() {
+			bad = append(bad, fmt.Sprintf("a no-nesting stack stored a Stack alias whose type has the same name as a plain type seen earlier (Len %d want 2, IsNesting %v)", b.Len(), b.IsNesting()))
+		}
+		c := stackage.Or().Push("a", alias)
+		if !c.IsNesting() {
+			bad = append(bad, "IsNesting false for a stack holding a Stack alias whose type has the same name as a plain type seen earlier")
+		}
+		if v, ok := c.Traverse(1, 0); !ok || v != "x" {
+			bad = append(bad, fmt.Sprintf("Traverse(1,0) through such an alias = (%v,%v)", v, ok))
+		}
+		if _, ok := stackage.ConvertStack(alias); !ok {
+			bad = append(bad, "ConvertStack false for such an alias")
+		}
+		// "clause": the alias one first (rendered, revealed), then plain leaves of the same type name
+		first := stackage.And().Push(sameNameAliasClause(stackage.Or().Push("in")), "z")
+		_ = first.String()
+		first.Reveal()
+		tree := stackage.Or().Push(sameNamePlainClause("top"), stackage.And().Push(stackage.Or().Push(stackage.Cond("k", stackage.Eq, "v"))), sameNamePlainClause("person"))
+		tree.Reveal()
+		if tree.IsNesting() != true || tree.Len() != 3 {
+			bad = append(bad, fmt.Sprintf("after Reveal a tree holding plain leaves (whose type shares its name with an alias type seen earlier) has Len %d", tree.Len()))
+		}
+		_ = tree.String()
+		tree.Unmarshal()
+		tree.IsEqual(tree)
+		tree.Defrag()
+		n := stackage.List().SetNoNesting(true).Push(sameNamePlainClause("kept"))
+		if n.Len() != 1 {
+			bad = append(bad, "a no-nesting stack refused a plain value whose type shares its name with an alias type seen earlier")
+		}
+	})
+	if p != "" {
+		bad = append(bad, "panic: "+p)
+	}
+	return strings.Join(bad, "; ")
+}
+
 // hollowFirst shows the hollow forms to every reading entry point, then checks that live values of the
 // same types are recognised. It returns a description of what went wrong ("" if nothing did).
 func hollowFirst() string {
